@@ -31,8 +31,11 @@ class DimensionRenamer(Transformer):
         self.sample_dims_before = sample_dims
         self.feature_dims_before = feature_dims
 
+        # Number the sample dimensions first: in a list of inputs every item then gets
+        # the same new names for the (shared) sample dimensions, wherever they sit
+        dims = list(sample_dims) + [dim for dim in X.dims if dim not in sample_dims]
         self.dim_mapping = {
-            dim: f"{self.base}{i}" for i, dim in enumerate(X.dims, start=self.start)
+            dim: f"{self.base}{i}" for i, dim in enumerate(dims, start=self.start)
         }
 
         self.sample_dims_after: Dims = tuple(
